@@ -301,6 +301,13 @@ class BaseParser(xml.sax.ContentHandler):
             schema = self._loader.loadURL(src)
             for n in schema.gettypenames():
                 self._schema.addtype(schema.gettype(n))
+            # the types of the components which that schema imported are
+            # part of this schema now; importing one of those components
+            # again (here or with %import in a configuration) must find
+            # it already present instead of defining its types twice
+            for name in schema.getcomponents():
+                if not self._schema.hasComponent(name):
+                    self._schema.addComponent(name)
         else:
             if os.path.dirname(filename):
                 self.error("file may not include a directory part")
